@@ -387,7 +387,8 @@ func (p *parser) parseLabelPredicateOperand() (pred LabelPredicate, _ error) {
 			pred = &BytesFilter{Label: Label(t.Text), Op: op, Value: b}
 		case lexer.IP:
 			switch opTok.Type {
-			case lexer.CmpEq, lexer.NotEq:
+			// LogQL spells the IP label filter with `=`; `==` is accepted too.
+			case lexer.Eq, lexer.CmpEq, lexer.NotEq:
 			default:
 				return nil, errors.Errorf("invalid operation %q", opTok.Type)
 			}
